@@ -280,8 +280,12 @@ func (s *Seq) Minimize() {
 		return
 	}
 
-	// Sort by length (shortest first) for efficient redundancy detection
-	sort.Slice(s.literals, func(i, j int) bool {
+	// Remember the priority (leftmost-first) order of the literals
+	orig := append([]Literal(nil), s.literals...)
+
+	// Sort by length (shortest first) for efficient redundancy detection.
+	// Stable: literals of equal length keep their priority order.
+	sort.SliceStable(s.literals, func(i, j int) bool {
 		return len(s.literals[i].Bytes) < len(s.literals[j].Bytes)
 	})
 
@@ -297,6 +301,11 @@ func (s *Seq) Minimize() {
 			if isPrefix(kept[j].Bytes, current.Bytes) {
 				// current is redundant (covered by shorter prefix)
 				isRedundant = true
+				if len(current.Bytes) > len(kept[j].Bytes) && firstIndex(orig, current.Bytes) < firstIndex(orig, kept[j].Bytes) {
+					// The longer literal had priority (e.g. ab|a): where it occurs the
+					// shorter one is not the preferred match, so it is no longer Complete.
+					kept[j].Complete = false
+				}
 				break
 			}
 		}
@@ -505,6 +514,16 @@ func (s *Seq) Dedup() {
 }
 
 // Helper functions
+
+// firstIndex returns the position of the first literal in lits equal to b, or len(lits).
+func firstIndex(lits []Literal, b []byte) int {
+	for i := range lits {
+		if bytes.Equal(lits[i].Bytes, b) {
+			return i
+		}
+	}
+	return len(lits)
+}
 
 // isPrefix returns true if prefix is a prefix of s.
 func isPrefix(prefix, s []byte) bool {
